@@ -83,6 +83,11 @@ Definition rs_quiet (seg : list N) : bool :=
   rs_starts_ok seg &&
   match rs_seg_events (S (length seg)) seg 0 with Some evs => rs_no_objs evs | None => false end.
 
+(* the tail (xref section, trailer, startxref, %%EOF) is the end of the file: the scan over it, to the end of
+   input, reports no header *)
+Definition rs_tail_quiet (tail : list N) : bool :=
+  rs_starts_ok tail && rs_no_objs (rc_scan_events tail).
+
 (* blank prefix: only white space and complete comment lines, as seen by the tokenizer *)
 Definition rs_idle (m : rc_tk) : bool :=
   negb (k_in m) && k_before m && (k_len m =? 0) &&
